@@ -5,6 +5,7 @@ pub mod c01;
 pub mod c02;
 pub mod corpus_all;
 pub mod c03;
+pub mod c04;
 pub mod c05;
 pub mod c08;
 pub mod c10;
@@ -16,6 +17,7 @@ pub fn dispatch(id: &str, tier: Tier, replay: Option<&str>, rest: &[String]) -> 
         "C01" => c01::run(tier, replay),
         "C02" => c02::run(tier, replay),
         "C03" => c03::run(tier, replay),
+        "C04" => c04::run(tier, replay),
         "C05" => c05::run(tier, replay),
         "C08" => c08::run(tier, replay),
         "C10" => c10::run(tier, replay),
